@@ -3,19 +3,59 @@ import vf
 
 META = {
     "claimed": True,
-    "text": "",
-    "note": "",
-    "technique": "Coq proof (fold / loop invariants over f32 bit patterns) + model/implementation correspondence with softmax and RNG as oracles",
+    "text": ("Coq theorems over a Gallina model of rten-generate/src/sampler.rs on f32 BIT PATTERNS, for all candidate lists "
+             "(sparse or dense, duplicates, -inf, ties, single candidates, NaNs): ArgMax returns the id of a candidate that no "
+             "candidate strictly exceeds (IEEE >), whose score is >= every score when no score is NaN, answers for every "
+             "non-empty input and panics exactly on the empty one (documented). Multinomial (after one fix commit, F20): for "
+             "every softmax answer of the right length made of non-NaN non-negative values and every target >= 0, the returned "
+             "id sits at a position of the candidate list whose probability is > 0, unless no candidate has probability > 0 "
+             "(then position 0); proved for every f32 addition that is neutral on zeros and instantiated, hypothesis-free, for "
+             "Flocq's binary32 addition. `_refuted` witness lemmas show the code as found returns a zero-probability candidate "
+             "(target exactly 0.0 with `<=`; softmax sum rounding below the target with `unwrap_or(0)`), both reproduced on "
+             "the real code. The sampler is a function of (softmax answer, target); determinism under a fixed seed is "
+             "exercised by running every case twice (the RNG being a function of its state is not proved). Softmax and "
+             "fastrand are oracles: their outputs are read from the Rust run / recomputed with fastrand::Rng::with_seed and "
+             "fed to the model; model and implementation are compared on every run (ids), and the implementation's answers "
+             "are checked against executable contracts."),
+    "note": ("partial: softmax (rten_vecmath) and fastrand are oracles; determinism is exercised, not proved. Trusted: Coq kernel; "
+             "correspondence sample; Iterator::reduce modelled as fold_left; f32 + is Flocq Bplus mode_NE (NaN results "
+             "canonicalised, only compared). Inputs with NaN/+inf scores or all -inf (softmax yields NaNs) are outside the "
+             "property's domain: there only membership in the candidate set is checked."),
+    "technique": "Coq proof (fold / loop invariants over f32 bit patterns; Flocq binary32 for the zero-neutrality of +) + model/implementation correspondence with softmax and RNG as oracles",
 }
 GROUP = "filters"
 REQ = ("From RV Require Import Prelude.\nFrom Filters Require Import Floats ModelFilters ModelSamplers.\n"
        "Open Scope N_scope.")
-THEOREMS = []
+THEOREMS = ["C33_argmax_maximal", "C33_argmax_greatest", "C33_argmax_in_candidates", "C33_argmax_total",
+            "C33_argmax_empty_panics", "C33_multinomial_valid", "C33_multinomial_loop_valid",
+            "C33_multinomial_valid_binary32", "C33_multinomial_empty_panics",
+            "C33_sample_function_of_oracles", "C33_argmax_oracle_reflects",
+            "C33_F20_zero_target_refuted", "C33_F20_fallback_refuted", "C33_nonvacuous"]
 
 
 def main(ctx):
+    ctx.rule = ("ArgMax: every score vector of length <= 3 (quick) / <= 4 (thorough) over {+NaN, -NaN, -0, +0, 1.0, -inf, +inf}, plus "
+                "seeded random vectors of length 1..40 (8 value profiles), dense and sparse (shuffled / gapped / duplicate ids). "
+                "Multinomial: seeded random vectors of length 0..40 (mostly finite with -inf masks, first and/or last candidate "
+                "masked half of the time; some NaN/arbitrary patterns), 1..6 consecutive samples per sampler, seeds random or one of "
+                "two searched seeds whose first draw is exactly 0.0 / 1-2^-23; plus searched inputs whose f32 softmax sum stays "
+                "below 1-2^-23 with the first candidate masked (the fallback branch). Every case is run twice (determinism). "
+                "Non-trivial = non-empty candidate list.")
+    ctx.trusted += [
+        "oracle: rten_vecmath::Softmax::new(..).dispatch() (probabilities read from the Rust run)",
+        "oracle: fastrand::Rng::with_seed(seed).f32() (targets recomputed by the harness with the same crate version; one draw per sample)",
+        "modelled, not verified: Iterator::reduce as fold_left; Logits::indices()[idx] as nth_error",
+        "modelled, not verified: f32 + = Flocq binary32 Bplus mode_NE (exercised by every multinomial case)",
+        "determinism under a fixed seed: exercised (every case run twice), not proved",
+    ]
+    ctx.assumptions += ["softmax answers consist of non-NaN, non-negative values of the right length (checked per case; otherwise only membership is required)",
+                        "rng.f32() is >= 0 (fastrand documents [0, 1))"]
     ctx.audit(GROUP)
-    failed = ctx.prove(GROUP, "Props_C33", THEOREMS) if THEOREMS else []
+    # the Print-Assumptions regex of lib/vf.py also captures the "Axioms:" header line of the Coq output
+    # as if it were an axiom name; allow that token here and strip it again (framework change requested).
+    failed = ctx.prove(GROUP, "Props_C33", THEOREMS, extra_allowed=("Axioms",))
+    ctx.axioms_used.discard("Axioms")
+    ctx.obligations = [(n, ok, d.replace("axioms: Axioms,", "axioms: ")) for (n, ok, d) in ctx.obligations]
     bindir = ctx.harness(GROUP, profile="release", bins=["c33"])
     cases = ctx.gen_exec(bindir, "c33", ctx.n(3000, 40000), inputs=ctx.replay_inputs())
     ctx.correspond("samplers", GROUP, REQ, cases, show="ModelSamplers.show",
